@@ -553,7 +553,7 @@ def rotations(c, rebound, exe):
     if f7 is not None:
         f18 = "0" if full("newaxes" + f7 + "0") else ("1" if full("newaxes" + f7 + "1") else None)
     c.cov["from_to_model_variant_matching_the_code"] = {"0": "as found (antiparallel axis not normalised, F7)", "1": "repaired (fixes/F7.diff)", None: "neither"}[f7]
-    c.cov["to_new_axes_model_variant_matching_the_code"] = {"0": "as found (dot product with the un-normalised newz, F18)", "1": "repaired (fixes/F18.diff)", None: "neither"}[f18]
+    c.cov["to_new_axes_model_variant_matching_the_code"] = {"0": "as found (dot product with the un-normalised newz, F18)", "1": "repaired (fixes/C20-to-new-axes-orthogonalise.diff)", None: "neither"}[f18]
     if f7 is not None:
         nbit += vbit.get("fromto" if f7 == "0" else "fromtofixed", 0)
         if f18 is not None:
